@@ -28,7 +28,10 @@ RET = {'false': False, 'none': None, 'zero': 0, 'empty': '', 'list': [],
 CLASSES = (['allow', 'deny', 'unknown', 'emptyset', 'scope'] +
            ['ret-' + k for k in RET] +
            # a check OBJECT needs no named rules: empty rule store
-           ['eo-allow', 'eo-deny', 'eo-scope', 'eo-ret-str'])
+           ['eo-allow', 'eo-deny', 'eo-scope', 'eo-ret-str'] +
+           # the rule reads a target attribute whose NAME looks sensitive
+           # (the debug dump masks such values - in its own copy)
+           ['pw-allow'])
 CALLS = []
 
 
@@ -70,8 +73,8 @@ def plan(tier, seed):
 def expected_class(cls):
     if cls.startswith('eo-'):
         cls = cls[3:]
-    if cls in ('allow',) or cls in ('ret-true', 'ret-one', 'ret-str',
-                                    'ret-tuple'):
+    if cls in ('allow', 'pw-allow') or cls in ('ret-true', 'ret-one',
+                                               'ret-str', 'ret-tuple'):
         return 'allow'
     if cls == 'scope':
         return 'scope'
@@ -88,11 +91,13 @@ def make_creds(rep):
 
 def make_target(kind):
     if kind == 'plain':
-        return {'project_id': 'p1'}
+        return {'project_id': 'p1', 'password': 'secret',
+                'auth_token': 'tok'}
     if kind == 'nested':
         return {'a': {'b': [1, {'c': 2}]}, 'password': 'secret',
-                'project_id': 'p1'}
-    return {'lock': threading.Lock(), 'project_id': 'p1'}
+                'auth_token': 'tok', 'project_id': 'p1'}
+    return {'lock': threading.Lock(), 'project_id': 'p1',
+            'password': 'secret', 'auth_token': 'tok'}
 
 
 def snapshot(x):
@@ -111,6 +116,9 @@ def build(P, parse_rule, cls):
     conf = world.new_conf(w.root, enforce_scope=True, policy_dirs=[])
     enf = P.Enforcer(conf)
     defaults = [P.RuleDefault('svc:allow', 'role:r'),
+                P.RuleDefault('svc:pw-allow',
+                              "'secret':%(password)s and "
+                              "'tok':%(auth_token)s"),
                 P.RuleDefault('svc:deny', 'role:nope'),
                 P.RuleDefault('svc:scope', '@', scope_types=['system'])]
     for k in RET:
@@ -135,8 +143,9 @@ def rule_for(P, parse_rule, cls, how):
         return 'svc:' + cls
     if cls in ('unknown', 'emptyset'):
         return None
-    text = {'allow': 'role:r', 'deny': 'role:nope', 'scope': '@'}.get(
-        cls, 'vret:' + cls[4:])
+    text = {'allow': 'role:r', 'deny': 'role:nope', 'scope': '@',
+            'pw-allow': "'secret':%(password)s and 'tok':%(auth_token)s"
+            }.get(cls, 'vret:' + cls[4:])
     chk = parse_rule(text)
     if cls == 'scope':
         chk.scope_types = ['system']
